@@ -32,8 +32,18 @@ assert len(uniq) > 50, "no dispatch pointers found"
 ctxt = subprocess.check_output(["gcc", "-E", "-P", "-w"] + sys.argv[4:] + [sys.argv[1][:-2] + ".c"], text=True)
 funcs = set(re.findall(r"\b([A-Za-z_]\w*)\s*\([^;{()]*(?:\([^()]*\)[^;{()]*)*\)\s*;", ctxt))
 ISA = r"_(c|sse|sse2|sse3|ssse3|sse4_1|sse41|avx|avx2|avx512)(_\w+)?$"
+# hand-reviewed exception table: pointers whose optimised variant is deliberately a SHARED implementation with another
+# name (rectangular inverse transforms use the generic svt_av1_highbd_inv_txfm_add_avx2; the high-bit-depth blend mask
+# uses an 8-bit-named SSE4.1 kernel; svt_memcpy's variants are svt_memcpy_c / svt_memcpy_intrin_sse)
+EXCEPTIONS = set("""svt_aom_highbd_blend_a64_mask svt_av1_inv_txfm2d_add_8x16 svt_av1_inv_txfm2d_add_16x8
+svt_av1_inv_txfm2d_add_16x32 svt_av1_inv_txfm2d_add_32x16 svt_av1_inv_txfm2d_add_32x8 svt_av1_inv_txfm2d_add_8x32
+svt_av1_inv_txfm2d_add_32x64 svt_av1_inv_txfm2d_add_64x32 svt_av1_inv_txfm2d_add_16x64 svt_av1_inv_txfm2d_add_64x16
+svt_memcpy""".split())
 variants, irregular = {}, []
 for n in uniq:
+    if n in EXCEPTIONS:
+        irregular.append(n)
+        continue
     stems = {n, "svt_" + n, n[4:] if n.startswith("svt_") else n}
     c = sorted(f for f in funcs if any(f.startswith(st) and re.match(ISA, f[len(st):]) for st in stems))
     if c:
